@@ -42,7 +42,7 @@ def G_of(case):
     return G
 
 class C08(Prop):
-    translators = ['flow', 'reach', 'flowhelpers']   # ford_fulkerson / dfs_path regenerated from flow.py on every run
+    translators = ['flow', 'bip', 'reach', 'flowhelpers']   # ('bip' holds the result packaging of ford_fulkerson: flow_final and the cut read off the residual graph) ford_fulkerson / dfs_path regenerated from flow.py on every run
     pid = "C08"
     title = "Ford-Fulkerson returns a maximum flow and a matching minimum cut"
     sources = ["socialchoicekit/flow.py"]
